@@ -220,3 +220,22 @@ package trie
 //@   loop 0: invariant typeid(batch) != 0 && @select(ghost(btarget), ref(batch)) == ref(db.diskdb) && closedUnder(db, ref(batch)) && ref(db.diskdb) == old(ref(db.diskdb)) && typeid(db.diskdb) != 0
 //@   loop 0: invariant forall h common.Hash :: has(db.nodes, h) ==> db.nodes[h] != nil
 //@   ensures [durable] result == nil && old(has(db.nodes, node)) ==> @select(@select(ghost(kvhas), ref(db.diskdb)), bytes(node))
+
+// References between tries (C03): the account layer makes storage-trie roots and code blobs children of the
+// account-trie leaf that names them, so that committing the account root also writes them. ghost refd[p][c]:
+// Reference(c, p) has been called.
+//@ ghost refd (Array Bytes (Array Bytes Bool))
+//@ func NodeDatabase.Reference
+//@   option trusted
+//@   ensures ghost(refd) == @store(old(ghost(refd)), bytes(parent), @store(@select(old(ghost(refd)), bytes(parent)), bytes(child), true))
+//@   modifies ghost(refd), heap("storage/trie.cachedNode"), heap("map[common.Hash]uint16")
+
+// reference (the body of Reference): after it a cached child IS among the external children of its (cached)
+// parent - whatever the parent already referenced - and no existing reference is lost. (childs() reads this map,
+// so NodeDatabase.commit reaches the child.)
+//@ func NodeDatabase.reference
+//@   property C03
+//@   requires db != nil && has(db.nodes, parent) && db.nodes[parent] != nil && (has(db.nodes, child) ==> db.nodes[child] != nil)
+//@   ensures [linked] old(has(db.nodes, child)) ==> has(db.nodes[parent].children, child)
+//@   ensures [kept]   forall c common.Hash :: old(has(db.nodes[parent].children, c)) ==> has(db.nodes[parent].children, c)
+//@   ensures [same]   db.nodes[parent] == old(db.nodes[parent])
